@@ -382,7 +382,8 @@ Proof. exact (conj candidate_b_nonvacuous candidate_b_blocks_witness). Qed.
    about, model label [LFwdAbort]): a consumer that does not read for a whole grace period after its
    context was cancelled loses the value in the forwarder's hand.  The stream [New; Stopped] is not
    s0 :: changes for the history [Error; Stopped] ([classify_stream] = None); [classify_slow] explains it
-   with one discarded value (k = 1: one grace period between cancel and close) and not with none.  The
+   with one discarded value (k = 1: one grace period between cancel and close; rcv = 1: the consumer had
+   received only s0 when the context was cancelled) and not with none.  The
    harness replays this shape on the real code on every run (mode slowsub). *)
 Definition C08_slow_after_cancel_run : list label :=
   [LSub; LRead 0; LOp (OTrans Error) true; LDeliver 0; LFwdTake 0; LOp (OTrans Stopped) true; LDeliver 0;
@@ -392,8 +393,11 @@ Example C08_ex_slow_after_cancel :
   exists s x, run (step fsm_cfg) init C08_slow_after_cancel_run = Some s /\ nth_error (subs s) 0 = Some x /\
               hist s = [Error; Stopped] /\ got x = [New; Stopped] /\ gotclosed x = true /\ dropped x = true /\
               classify_stream (hist s) (got x) true 0 0 2 2 = None /\
-              classify_slow (hist s) (got x) 0 0 2 2 1 = true /\
-              classify_slow (hist s) (got x) 0 0 2 2 0 = false.
+              classify_slow (hist s) (got x) 0 0 2 2 1 1 = true /\
+              classify_slow (hist s) (got x) 0 0 2 2 0 1 = false /\
+              (* had the consumer already received two values at the cancel, the same stream would be a loss
+                 on a LIVE subscription: never explained *)
+              classify_slow (hist s) (got x) 0 0 2 2 1 2 = false.
 Proof. eexists. eexists. split; [vm_compute; reflexivity|]. repeat split; vm_compute; reflexivity. Qed.
 
 (* C08_result_composite_partial covers, like every theorem here, ALL schedules of the composite model - in
